@@ -154,7 +154,7 @@ static void w_apply(mc_op_t o)
         SHIM_CALL(ab, cstl_heap_swap(&H[0], &H[1]));
         break;
     }
-    if (ab) MC_CHECK(PC07 | PC15, 0, "unexpected %s inside the library: %s", ab == 2 ? "assertion failure" : "abort()", ab == 2 ? shim_assert_msg : "");
+    if (ab) MC_CHECK(PC07 | PC15, 0, "unexpected %s inside the library: %s", ab == 3 ? "non-termination (a library call still running after 3 s)" : ab == 2 ? "assertion failure" : "abort()", ab == 2 ? shim_assert_msg : "");
 }
 
 /* completeness: node reachable by the level-order path of slot s (1-based) exists iff s <= size */
